@@ -29,7 +29,8 @@ from apischema.conversions import Conversion, as_str, catch_value_error
 
 # =================== bytes =====================
 
-deserializer(Conversion(b64decode, source=str, target=bytes))
+# binascii.Error (malformed base64) and the ValueError of non-ASCII text are invalid data
+deserializer(Conversion(catch_value_error(b64decode), source=str, target=bytes))
 
 
 @serializer
@@ -93,7 +94,7 @@ for cls in (PurePath, PurePosixPath, PureWindowsPath, Path, PosixPath, WindowsPa
 def _compile(pattern: str) -> re.Pattern:
     try:
         return re.compile(pattern)
-    except re.error as err:
+    except (re.error, OverflowError) as err:  # "the repetition number is too large"
         raise ValidationError(str(err))
 
 
